@@ -220,7 +220,7 @@ pub fn c13(rng: &mut Rng, tier: &str, _idx: usize) -> Case {
 
 // ---------------------------------------------------------------- C18
 
-const EDIT_KINDS: [&str; 17] = [
+const EDIT_KINDS: [&str; 18] = [
     "none",
     "rename_term",
     "add_parent",
@@ -236,6 +236,7 @@ const EDIT_KINDS: [&str; 17] = [
     "remove_term",
     "version",
     "move_parent",
+    "exchange_record",
     "several",
     "many",
     // "dangling_parent" (a parent id that is not a term) was generated here at first: such an
@@ -368,6 +369,25 @@ fn edit(rng: &mut Rng, f: &mut Facts, flags: &mut Flags, kind: &str) -> bool {
             f.recs[k].push((id, gen_name(rng)));
             for _ in 0..rng.below(3) {
                 f.links[k].push((id, *rng.pick(&ids_all)));
+            }
+            true
+        }
+        "exchange_record" => {
+            // one record of a kind replaced by another one: the number of records of every kind
+            // stays the same (an addition AND a removal of the same kind, nothing else)
+            let ks: Vec<usize> = (0..3).filter(|k| !f.recs[*k].is_empty()).collect();
+            if ks.is_empty() {
+                return false;
+            }
+            let k = *rng.pick(&ks);
+            let old = rng.pick(&f.recs[k]).0;
+            let new = (31..200u32).find(|x| !f.recs[k].iter().any(|r| r.0 == *x)).unwrap_or(999);
+            let terms: Vec<u32> = f.links[k].iter().filter(|l| l.0 == old).map(|l| l.1).collect();
+            f.recs[k].retain(|x| x.0 != old);
+            f.links[k].retain(|x| x.0 != old);
+            f.recs[k].push((new, gen_name(rng)));
+            for t in terms {
+                f.links[k].push((new, t));
             }
             true
         }
@@ -554,7 +574,7 @@ pub fn c18(rng: &mut Rng, _tier: &str, idx: usize) -> Case {
     facts_to_fops(rng, &f, &flags, fv_a, 0, true, &mut c);
     let (mut g, mut gflags) = (f.clone(), flags.clone());
     let mut applied = 0u64;
-    let single = EDIT_KINDS[1..15].to_vec();
+    let single = EDIT_KINDS[1..16].to_vec();
     match kind {
         "none" => {}
         "several" | "many" => {
